@@ -66,10 +66,10 @@ func NewParser(l *Lexer) Parser {
 		Minus:         {PrecAddition, unary, binary},
 		Multiply:      {PrecMultiplication, nil, binary},
 		Divide:        {PrecMultiplication, regex, binary},
-		PlusEqual:     {PrecAssign, nil, binary},
-		MinusEqual:    {PrecAssign, nil, binary},
-		MultiplyEqual: {PrecAssign, nil, binary},
-		DivideEqual:   {PrecAssign, nil, binary},
+		PlusEqual:     {PrecAssign, nil, assign},
+		MinusEqual:    {PrecAssign, nil, assign},
+		MultiplyEqual: {PrecAssign, nil, assign},
+		DivideEqual:   {PrecAssign, nil, assign},
 		AmpAmp:        {PrecLogical, nil, binary},
 		PipePipe:      {PrecLogical, nil, binary},
 		Match:         {PrecNone, match, nil},
@@ -737,6 +737,10 @@ func unary(p *Parser) (Expr, error) {
 		return nil, err
 	}
 
+	if (opToken.Tag == PlusPlus || opToken.Tag == MinusMinus) && !assignable(expr) {
+		return nil, p.error(expr.Token().Pos, "invalid assignment")
+	}
+
 	return &ExprUnary{
 		Expr:    expr,
 		OpToken: opToken,
@@ -745,6 +749,10 @@ func unary(p *Parser) (Expr, error) {
 }
 
 func postfix(p *Parser, left Expr) (Expr, error) {
+	if !assignable(left) {
+		return nil, p.error(left.Token().Pos, "invalid assignment")
+	}
+
 	_, err := p.advance()
 	if err != nil {
 		return nil, err
@@ -847,14 +855,20 @@ func (p *Parser) rewriteCompundAssingment(left Expr, right Expr, opToken Token) 
 	}, nil
 }
 
-func assign(p *Parser, left Expr) (Expr, error) {
-	switch e := left.(type) {
-	case *ExprLiteral, *ExprArray, *ExprObject:
-		return nil, p.error(left.Token().Pos, "invalid assignment")
+// only variables, members and elements can be assigned to
+func assignable(expr Expr) bool {
+	switch e := expr.(type) {
+	case *ExprIdentifier:
+		return true
 	case *ExprBinary:
-		if e.OpToken.Tag != Dot && e.OpToken.Tag != LSquare {
-			return nil, p.error(left.Token().Pos, "invalid assignment")
-		}
+		return e.OpToken.Tag == Dot || e.OpToken.Tag == LSquare
+	}
+	return false
+}
+
+func assign(p *Parser, left Expr) (Expr, error) {
+	if !assignable(left) {
+		return nil, p.error(left.Token().Pos, "invalid assignment")
 	}
 
 	_, err := p.advance()
